@@ -11,6 +11,7 @@ Copyright (c) 2008, 2009 Centre national de la recherche scientifique (CNRS)
 #include <cassert>
 #include <climits>
 #include <cstdint>
+#include <mutex>
 #include <optional>
 #include <stack>
 #include <string>
@@ -77,6 +78,7 @@ class FastRational
     {
         std::stack<mpq_class> store; // uses deque as storage to avoid realloc
         std::stack<mpq_ptr, std::vector<mpq_ptr>> pool;
+        std::mutex mutex; // the pool is shared by all threads; numbers may be released in another thread than they were allocated in
     public:
         mpq_ptr alloc();
         void release(mpq_ptr);
